@@ -118,7 +118,7 @@ PROPS = {
         'streams': ['loop', 'loopadv', 'isolate'],
         'level_text': "C09_frame: a message from address a leaves every binding (b, s), b<>a, untouched; C09_restart_discards_own_flows_only; C09_handle_origin (invariant over all histories) and C09_commands_go_to_origin: every handle command is sent to the creating address with the flow's id.",
         'level_note': 'Coq kernel; no axioms; hand-written model of run_inner (src/run.rs), Datapath/Report (src/lib.rs) and Backend::next, with user callbacks and send failures as arbitrary oracles; tied to the code by running RunBuilder::run inline over a scripted Ipc with recording algorithms on the same histories (model and implementation logs compared after sorting hash-ordered DROP/INSTALL batches and renaming uids through the install messages). Assumes handles are used only inside the three callbacks.',
-        'rule': 'loopadv additionally draws the addresses of a third of its histories from pairs of distinct 64-bit addresses that a digest-keyed table would confuse (equal low 32 bits of the standard hasher, equal modulo 2^32, equal modulo 2^8); structured random histories over 3 addresses x 4 flow ids: ready / create (9 algorithm names incl. prefixes, extensions, empty, 63 bytes) / measurement for live and dead flows / close / unknown, 1-4 messages per datagram (occasionally 10-14, exceeding the 1024-byte buffer), restarts, re-creates, receive errors, stop requests; 0-3 additional algorithms with duplicate names and absent instances, 6 table programs incl. a duplicate name and an uncompilable one; callbacks issue set_program/update_field/get_field lists; non-trivial = commands sent to at least two different addresses',
+        'rule': 'isolate: the implementation alone on a history and on the same history restricted to one address (what that datapath sees must be the same; 1 500 / 30 000 pairs); loopadv additionally draws the addresses of a third of its histories from pairs of distinct 64-bit addresses that a digest-keyed table would confuse (equal low 32 bits of the standard hasher, equal modulo 2^32, equal modulo 2^8); structured random histories over 3 addresses x 4 flow ids: ready / create (9 algorithm names incl. prefixes, extensions, empty, 63 bytes) / measurement for live and dead flows / close / unknown, 1-4 messages per datagram (occasionally 10-14, exceeding the 1024-byte buffer), restarts, re-creates, receive errors, stop requests; 0-3 additional algorithms with duplicate names and absent instances, 6 table programs incl. a duplicate name and an uncompilable one; callbacks issue set_program/update_field/get_field lists; non-trivial = commands sent to at least two different addresses',
         'assumptions': ["a flow's datapath handle is used only inside new_flow / on_report / close (not from Drop, not smuggled out)", 'program uids are canonicalised through the install messages; DROP and INSTALL batches are sorted before comparison (HashMap order)'],
         "nontrivial": NT_C09,
     },
@@ -136,7 +136,7 @@ PROPS = {
         'streams': ['loop'],
         'level_text': 'C12_stale / C12_same_program / C12_value_from_own_slot_only / C12_too_short: a complete case split of Report::get_field; a value comes only from the slot the scope gives that name.',
         'level_note': 'Coq kernel; no axioms; hand-written model of run_inner (src/run.rs), Datapath/Report (src/lib.rs) and Backend::next, with user callbacks and send failures as arbitrary oracles; tied to the code by running RunBuilder::run inline over a scripted Ipc with recording algorithms on the same histories (model and implementation logs compared after sorting hash-ordered DROP/INSTALL batches and renaming uids through the install messages). Assumes handles are used only inside the three callbacks.',
-        'rule': 'structured random histories over 3 addresses x 4 flow ids: ready / create (9 algorithm names incl. prefixes, extensions, empty, 63 bytes) / measurement for live and dead flows / close / unknown, 1-4 messages per datagram (occasionally 10-14, exceeding the 1024-byte buffer), restarts, re-creates, receive errors, stop requests; 0-3 additional algorithms with duplicate names and absent instances, 6 table programs incl. a duplicate name and an uncompilable one; callbacks issue set_program/update_field/get_field lists; non-trivial = a successful lookup and at least one refusal',
+        'rule': 'every lookup through an own scope is repeated through a compilation made on another thread right after two failing compilations; every case\'s runtime runs on a thread of its own; structured random histories over 3 addresses x 4 flow ids: ready / create (9 algorithm names incl. prefixes, extensions, empty, 63 bytes) / measurement for live and dead flows / close / unknown, 1-4 messages per datagram (occasionally 10-14, exceeding the 1024-byte buffer), restarts, re-creates, receive errors, stop requests; 0-3 additional algorithms with duplicate names and absent instances, 6 table programs incl. a duplicate name and an uncompilable one; callbacks issue set_program/update_field/get_field lists; non-trivial = a successful lookup and at least one refusal',
         'assumptions': ["a flow's datapath handle is used only inside new_flow / on_report / close (not from Drop, not smuggled out)", 'program uids are canonicalised through the install messages; DROP and INSTALL batches are sorted before comparison (HashMap order)'],
         "nontrivial": NT_C12,
     },
@@ -154,7 +154,7 @@ PROPS = {
         'streams': ['loopadv', 'ignore', 'unixapi'],
         'level_text': 'C16_run_never_panics: for every script of arbitrary datagrams, receive errors, stop requests, user behaviour and send-failure pattern the run returns Ok or Err (no panic, fuel suffices); C16_ignored_inert: ignored messages return the state unchanged.',
         'level_note': 'Coq kernel; no axioms; hand-written model of run_inner (src/run.rs), Datapath/Report (src/lib.rs) and Backend::next, with user callbacks and send failures as arbitrary oracles; tied to the code by running RunBuilder::run inline over a scripted Ipc with recording algorithms on the same histories (model and implementation logs compared after sorting hash-ordered DROP/INSTALL batches and renaming uids through the install messages). Assumes handles are used only inside the three callbacks.',
-        'rule': 'structured random histories over 3 addresses x 4 flow ids: ready / create (9 algorithm names incl. prefixes, extensions, empty, 63 bytes) / measurement for live and dead flows / close / unknown, 1-4 messages per datagram (occasionally 10-14, exceeding the 1024-byte buffer), restarts, re-creates, receive errors, stop requests; 0-3 additional algorithms with duplicate names and absent instances, 6 table programs incl. a duplicate name and an uncompilable one; callbacks issue set_program/update_field/get_field lists; adversarial datagrams (every type code 0..8, 200, 255, wide codes, truncated/oversized payloads, random bytes, >1024-byte datagrams) and one injected send failure at a random position in a third of the cases; non-trivial = history contains raw adversarial bytes or a failed send',
+        'rule': 'unixapi: the address the real unix transport reports for a sender is the address it is bound to, verbatim (relative and absolute); structured random histories over 3 addresses x 4 flow ids: ready / create (9 algorithm names incl. prefixes, extensions, empty, 63 bytes) / measurement for live and dead flows / close / unknown, 1-4 messages per datagram (occasionally 10-14, exceeding the 1024-byte buffer), restarts, re-creates, receive errors, stop requests; 0-3 additional algorithms with duplicate names and absent instances, 6 table programs incl. a duplicate name and an uncompilable one; callbacks issue set_program/update_field/get_field lists; adversarial datagrams (every type code 0..8, 200, 255, wide codes, truncated/oversized payloads, random bytes, >1024-byte datagrams) and one injected send failure at a random position in a third of the cases; non-trivial = history contains raw adversarial bytes or a failed send',
         'assumptions': ["the bundled channel transport's own behaviour on oversized datagrams is checked under C19"],
         "nontrivial": NT_C16,
     },
@@ -163,7 +163,7 @@ PROPS = {
         'streams': ['loopadv', 'apiorder', 'unixapi'],
         'level_text': 'PARTIAL. C18_stopped_ends / C18_stop_request_ends / C18_dead_channel_is_error / C18_close_is_last prove the flag logic of get_next_read and the end of run_inner on the model. Wall-clock latency and the Arc reference count cannot be exhibited by the model; the correspondence run observes recv calls after the stop (0), Arc::strong_count (back to 1), the close call and the result.',
         'level_note': 'Coq kernel; no axioms; hand-written model of run_inner (src/run.rs), Datapath/Report (src/lib.rs) and Backend::next, with user callbacks and send failures as arbitrary oracles; tied to the code by running RunBuilder::run inline over a scripted Ipc with recording algorithms on the same histories (model and implementation logs compared after sorting hash-ordered DROP/INSTALL batches and renaming uids through the install messages). Assumes handles are used only inside the three callbacks.',
-        'rule': 'structured random histories over 3 addresses x 4 flow ids: ready / create (9 algorithm names incl. prefixes, extensions, empty, 63 bytes) / measurement for live and dead flows / close / unknown, 1-4 messages per datagram (occasionally 10-14, exceeding the 1024-byte buffer), restarts, re-creates, receive errors, stop requests; 0-3 additional algorithms with duplicate names and absent instances, 6 table programs incl. a duplicate name and an uncompilable one; callbacks issue set_program/update_field/get_field lists; non-trivial = the script contains a stop request or starts stopped',
+        'rule': 'apiorder: nine orders of with_stop_handle / with_raw_stop_handle / default_alg / spawn_thread and kill on an idle transport; unixapi: an idle runtime on a real unix socket made by each of the five constructors returns within 3.5 s of the stop request; structured random histories over 3 addresses x 4 flow ids: ready / create (9 algorithm names incl. prefixes, extensions, empty, 63 bytes) / measurement for live and dead flows / close / unknown, 1-4 messages per datagram (occasionally 10-14, exceeding the 1024-byte buffer), restarts, re-creates, receive errors, stop requests; 0-3 additional algorithms with duplicate names and absent instances, 6 table programs incl. a duplicate name and an uncompilable one; callbacks issue set_program/update_field/get_field lists; non-trivial = the script contains a stop request or starts stopped',
         'assumptions': ["a flow's datapath handle is used only inside new_flow / on_report / close (not from Drop, not smuggled out)", 'program uids are canonicalised through the install messages; DROP and INSTALL batches are sorted before comparison (HashMap order)'],
         "nontrivial": NT_C18,
     },
@@ -174,7 +174,7 @@ PROPS = {
                       "fuel (C10_parser_terminates: the parser always terminates); C10_runtime_reports: an uncompilable program makes run return Err.",
         "level_note": "Coq kernel; no axioms; hand-written character-level model of the nom parsers (src/lang/ast.rs, prog.rs), of Scope/compile_expr/compile_prog (datapath.rs), lang::compile (mod.rs) and the image encoder (serialize.rs); tied to the code by compiling the same byte strings with portus::lang and with the extracted model and comparing image bytes and the scope's answer (class, index, volatility, type and initial value) for every name occurring in the text.",
         "streams": ["c10", "limits"],
-        "rule": "exhaustive token sequences (26-token alphabet) up to length 2 raw and up to length 2-3 in five holes of a valid skeleton, a sixth of "
+        "rule": "limits: 254..257 variables of one kind, in one spelling or split across the two; multi-byte characters around fifteen plausible cut points of the unparsed remainder; exhaustive token sequences (26-token alphabet) up to length 2 raw and up to length 2-3 in five holes of a valid skeleton, a sixth of "
                 "the length-3 raw ones (thorough: all up to 4), random sequences of 4-12 tokens, valid programs with one token replaced/inserted/"
                 "deleted, ill-placed constructs, counter limits (15..300 declarations/locals), nesting depth up to 64, byte-level mutations incl. "
                 "invalid UTF-8 and non-ASCII letters whose low byte is alphanumeric, raw random bytes; non-trivial = the source gets past the "
@@ -218,7 +218,7 @@ PROPS = {
         "level_note": "Coq kernel; no axioms; encoder model validated differentially through the loop stream (handle commands) and this stream; libccp 1.2.0 (vendored, "
                       "checksummed, compiled unmodified with gcc under a scripted clock) is the reference datapath: an oracle, not verified.",
         "streams": ["c06", "loop", "loopadv"],
-        "rule": "update lists of every 7th length 0..300 (thorough: all) plus 126..129, 221..223, 254..257 in change-program and update-fields messages; 22 register kinds "
+        "rule": "loopadv: commands after failed sends; a ninth table program that places shared control names at other indices; update lists of every 7th length 0..300 (thorough: all) plus 126..129, 221..223, 254..257 in change-program and update-fields messages; 22 register kinds "
                 "(every class, boundary indices, immediates) x 5 boundary values; programs of 1..4000 statements (image sizes straddling 65535 bytes and libccp's "
                 "255-instruction limit); each message is read by the real libccp and by its model, then an invocation shows the staged values; "
                 "non-trivial = libccp accepted at least one message of the case (M0) — distinct by script",
@@ -234,7 +234,7 @@ PROPS = {
                       "AtomicU32::fetch_add is trusted. The stress stream compiles from 1..16 threads concurrently and checks all uids pairwise distinct, clones equal, per-thread increasing.",
         "level_note": "Coq kernel; no axioms; translator lib/gen_uidops.py (regular expressions over the macro body, the static's declaration and Scope::new); atomicity and memory ordering of the hardware/Rust atomic are trusted.",
         "streams": ["c17", "loop"],
-        "rule": "N in {1,2,4,8,16} threads x 2000 compilations each (thorough: up to 50000) of two valid and two invalid sources, started together behind a barrier, two repetitions; "
+        "rule": "loop: the uid a change-program message carries is one installed at its destination (thirteen table programs, more than ten in one runtime); N in {1,2,4,8,16} threads x 2000 compilations each (thorough: up to 50000) of two valid and two invalid sources, started together behind a barrier, two repetitions; "
                 "non-trivial = a run with at least two threads; distinct by (threads, m, repetition)",
         "nontrivial": lambda r: "threads=1 " not in r["arg"],
         "search_with_thorough": True,
@@ -248,7 +248,7 @@ PROPS = {
                       "(1-4 senders, bursts of thousands, sizes 13..1024, per-sender sequence numbers and checksums, sender address check, non-blocking empty receive, oversized datagrams, dead handle).",
         "level_note": "Coq kernel; no axioms; the FIFO hypothesis (crossbeam unbounded channel, AF_UNIX SOCK_DGRAM) is assumed by the model and observed by the run.",
         "streams": ["c19", "unixapi"],
-        "rule": "channel transport: 1-4 concurrent senders x 5000/n datagrams (thorough 100000/n), portus-side send burst, non-blocking empty receive, oversized datagrams of 1025/2048/70000 bytes, "
+        "rule": "unixapi: 600 consecutive sends to one destination, then other destinations, then a third party sending to the sender; channel transport: 1-4 concurrent senders x 5000/n datagrams (thorough 100000/n), portus-side send burst, non-blocking empty receive, oversized datagrams of 1025/2048/70000 bytes, "
                 "send through a handle whose backend was dropped; Unix transport: 1-3 sender sockets x 3000/n datagrams with sender-address check, non-blocking empty receive; "
                 "non-trivial = every scenario (each is distinct)",
         "nontrivial": lambda r: True,
